@@ -97,9 +97,68 @@ def run(ctx, rep):
                             break
             except Exception as exc:
                 rep.violate(f"run raised {type(exc).__name__}: {exc}", "C09:raised", case)
+    selection_level(ctx, rep)
     if ctx.driver_ok:
         rep.corr_cases = 0
         rep.extra["correspondence"] = "inherited from C05/C08/C10/C11 (models composed by the theorems of C09)"
+
+
+def selection_level(ctx, rep):
+    """the two selection operators and the hall of fame in isolation, on many more (and larger) inputs than whole runs reach"""
+    from bingo.selection.age_fitness import AgeFitness
+    from bingo.selection.deterministic_crowding import DeterministicCrowding
+    from harness.c08 import mkpop, nan
+    rng = ctx.rng
+
+    def best(keys):
+        ks = [k for k in keys if k != "nan"]
+        return min(ks) if ks else None
+    for t in range(ctx.n(2500, 30000)):
+        n = rng.randrange(2, 41)
+        pop = mkpop(rng, n, nan_prob=rng.choice([0.0, 0.1, 0.4]))
+        sel = rng.choice([2, 3, 5, 8])
+        target = rng.randrange(1, n + 1)
+        np.random.seed(rng.randrange(2 ** 31))
+        b0 = best([c.key for c in pop])
+        out = AgeFitness(selection_size=sel)(list(pop), target)
+        b1 = best([c.key for c in out])
+        rep.case(("sel-af", n, sel, target, t), True)
+        rep.count("selection_level", "age-fitness")
+        if b0 is not None and (b1 is None or b1 > b0):
+            rep.violate(f"age-fitness selection (selection_size={sel}) lost the best individual: best key {b0} -> {b1}", "C09:best-lost",
+                        {"pop": [(c.key, c.genetic_age) for c in pop], "selection_size": sel, "target": target})
+    for t in range(ctx.n(800, 8000)):
+        half = 2 * rng.randrange(1, 8)
+        pop = mkpop(rng, 2 * half, nan_prob=rng.choice([0.0, 0.3]))
+        b0 = best([c.key for c in pop[:half]])
+        out = DeterministicCrowding()(list(pop), half)
+        b1 = best([c.key for c in out])
+        rep.case(("sel-dc", half, t), True)
+        rep.count("selection_level", "crowding")
+        if b0 is not None and (b1 is None or b1 > b0):
+            rep.violate(f"deterministic crowding lost the best parent: best key {b0} -> {b1}", "C09:best-lost", {"pop": [c.key for c in pop]})
+    for t in range(ctx.n(1500, 15000)):
+        hof = HallOfFame(rng.randrange(1, 5))
+        offered = None
+        for u in range(rng.randrange(1, 5)):
+            pop = mkpop(rng, rng.randrange(1, 6), nan_prob=rng.choice([0.1, 0.5, 0.9]))
+            hof.update(pop)
+            b = best([c.key for c in pop])
+            if b is not None:
+                offered = b if offered is None else min(offered, b)
+            rep.count("selection_level", "hall-of-fame update")
+            if offered is not None:
+                top = hof[0].fitness if len(hof) else None
+                if top is None or top != top or top > key_of(offered):
+                    rep.violate(f"hall of fame best {top} is worse than the best individual offered so far ({key_of(offered)})", "C09:hof-worse",
+                                {"update": u, "population": [c.key for c in pop]})
+                    break
+        rep.case(("hof", t), True)
+
+
+def key_of(k):
+    from harness.keys import key_to_float
+    return key_to_float(k)
 
 
 def replay(ctx, rep, rp):
